@@ -25,7 +25,7 @@ type nv struct {
 func strOf(n int) string { return strings.Repeat("abcdefghijklmnopqrstuvwxyz0123456789", n/36+1)[:n] }
 
 // scalarDomain: boundary values of one kind, simplest first. index 0 is always the zero value.
-// BigLists adds lists of 4097 (thorough: 2049, 8193, 65537) scalar elements to the value domains. Off by default: only the
+// BigLists adds lists of 4097 (thorough: 2049, 8193) scalar elements to the value domains. Off by default: only the
 // marshal / unmarshal checks of the generated code (C04-C07, C10) ask for them.
 var BigLists bool
 
@@ -264,9 +264,9 @@ func fieldSetters(fd protoreflect.FieldDescriptor, depth int, thorough bool) []s
 			// beyond every small chunk size a generator might introduce (scratch arrays, batching): 2^12 + 1 elements
 			lens = append(lens, 4097)
 			if thorough && fd.Kind() != protoreflect.StringKind && fd.Kind() != protoreflect.BytesKind {
-				// (strings / bytes stay at 4097 elements: 65537 elements that cycle through 16 KiB values are 200 MB per
-				// message, several copies of which exhaust the worker's address-space limit - a death of the harness, not a verdict)
-				lens = append(lens, 2049, 8193, 65537)
+				// (strings / bytes stay at 4097 elements, numeric kinds at 8193: with 65537 elements sixteen workers holding several
+				// copies of such messages were killed for memory - a death of the harness, not a verdict)
+				lens = append(lens, 2049, 8193)
 			}
 		}
 		// packed payloads of exactly 127 / 128 (thorough: 16383 / 16384) BYTES made of the widest encoding of the kind plus
